@@ -152,8 +152,8 @@ func cmdCheck(args []string) int {
 		all = true
 	}
 	ts := time.Now()
-	solveAll(obls, outDir, timeout, all, 12, seed)
-	solveAll(canaries, outDir, 2*time.Second, false, 12, seed)
+	solveAll(obls, outDir, timeout, all, 8, seed)
+	solveAll(canaries, outDir, 2*time.Second, false, 8, seed)
 	solveSecs := time.Since(ts).Seconds()
 
 	// known findings and ledger
